@@ -21,6 +21,7 @@ counter check, so that the postcondition of `inject` is observed on every inject
 """
 from __future__ import annotations
 
+import functools
 import hashlib
 
 OTHER = 'tz1VSUr8wwNhLAzempoch5d6hLRiTh8Cjcjb'     # another account (mempool noise, destination)
@@ -41,10 +42,12 @@ def _b58check(prefix: bytes, payload: bytes) -> str:
     return '1' * (len(data) - len(data.lstrip(b'\0'))) + s
 
 
+@functools.lru_cache(maxsize=None)
 def block_hash(level: int) -> str:
     return _b58check(bytes([1, 52]), hashlib.blake2b(b'block%d' % level, digest_size=32).digest())
 
 
+@functools.lru_cache(maxsize=4096)
 def op_hash(data: bytes) -> str:
     return _b58check(bytes([5, 116]), hashlib.blake2b(data, digest_size=32).digest())
 
